@@ -32,6 +32,13 @@ impl<'c> Acc<'c> {
         }
         self.d(v);
     }
+    /// a result: the value through Debug, the error through Display, Debug and its source chain (rendering an error is part of totality)
+    pub fn r<T: std::fmt::Debug, E: std::error::Error>(&mut self, v: Result<T, E>) {
+        match v {
+            Ok(x) => self.d(x),
+            Err(e) => self.e(e),
+        }
+    }
     /// a returned sub-slice: range relative to the input (flags out-of-bounds) + contents
     pub fn s(&mut self, s: &[u8]) {
         self.ctx.rg(s).hash(&mut self.h);
@@ -137,7 +144,7 @@ fn sw_link(a: &mut Acc, b: &[u8]) {
         }
         Err(e) => a.e(e),
     }
-    a.d(MacsecHeader::from_slice(b));
+    a.r(MacsecHeader::from_slice(b));
 }
 
 fn sw_opts(a: &mut Acc, it: TcpOptionsIterator) {
@@ -232,7 +239,7 @@ fn sw_net(a: &mut Acc, b: &[u8]) {
                 break;
             }
         }
-        a.d(Ipv6Extensions::from_slice(IpNumber(nh), b).map(|(e, n, r)| (e, n, r.len())));
+        a.r(Ipv6Extensions::from_slice(IpNumber(nh), b).map(|(e, n, r)| (e, n, r.len())));
         let l = Ipv6Extensions::from_slice_lax(IpNumber(nh), b);
         a.d((l.0, l.1, l.2.len(), l.3));
     }
@@ -245,10 +252,10 @@ fn sw_net(a: &mut Acc, b: &[u8]) {
         let mut c = std::io::Cursor::new(b);
         a.d(Ipv6Header::skip_all_header_extensions(&mut c, IpNumber(nh)).map_err(|e| e.kind()));
     }
-    a.d(Ipv4ExtensionsSlice::from_slice(IpNumber(51), b).map(|(e, n, r)| (e.to_header(), n, r.len())));
+    a.r(Ipv4ExtensionsSlice::from_slice(IpNumber(51), b).map(|(e, n, r)| (e.to_header(), n, r.len())));
     let l = Ipv4ExtensionsSlice::from_slice_lax(IpNumber(51), b);
     a.d((l.0.to_header(), l.1, l.2.len(), l.3));
-    a.d(Ipv4Extensions::from_slice(IpNumber(51), b).map(|(e, n, r)| (e, n, r.len())));
+    a.r(Ipv4Extensions::from_slice(IpNumber(51), b).map(|(e, n, r)| (e, n, r.len())));
     match ArpPacketSlice::from_slice(b) {
         Ok(x) => {
             a.s(x.slice()); a.d(x.hw_addr_type()); a.d(x.proto_addr_type()); a.d(x.hw_addr_size()); a.d(x.proto_addr_size()); a.d(x.operation());
@@ -256,7 +263,7 @@ fn sw_net(a: &mut Acc, b: &[u8]) {
         }
         Err(e) => a.e(e),
     }
-    a.d(ArpPacket::from_slice(b));
+    a.r(ArpPacket::from_slice(b));
     match Ipv6Slice::from_slice_lax(b) {
         Ok(x) => {
             a.s(x.header().slice()); a.s(x.extensions().slice()); a.s(x.payload().payload); a.d(x.payload());
@@ -298,7 +305,7 @@ fn sw_transport(a: &mut Acc, b: &[u8]) {
             a.s(x.slice()); a.s(x.header_slice()); a.s(x.payload()); a.d(x.source_port()); a.d(x.destination_port()); a.d(x.sequence_number());
             a.d(x.acknowledgment_number()); a.d(x.data_offset()); a.d((x.ns(), x.fin(), x.syn(), x.rst(), x.psh(), x.ack(), x.urg(), x.ece(), x.cwr()));
             a.d(x.window_size()); a.d(x.checksum()); a.d(x.urgent_pointer()); a.s(x.options()); sw_opts(a, x.options_iterator()); a.d(x.to_header());
-            a.d(x.calc_checksum_ipv4([1, 2, 3, 4], [5, 6, 7, 8])); a.d(x.calc_checksum_ipv6([1; 16], [2; 16]));
+            a.r(x.calc_checksum_ipv4([1, 2, 3, 4], [5, 6, 7, 8])); a.r(x.calc_checksum_ipv6([1; 16], [2; 16]));
         }
         Err(e) => a.e(e),
     }
@@ -311,15 +318,15 @@ fn sw_transport(a: &mut Acc, b: &[u8]) {
         }
         Err(e) => a.e(e),
     }
-    a.d(Icmpv4Header::from_slice(b).map(|(h, r)| (h, r.len())));
+    a.r(Icmpv4Header::from_slice(b).map(|(h, r)| (h, r.len())));
     match Icmpv6Slice::from_slice(b) {
         Ok(x) => {
             a.s(x.slice()); a.d(x.header()); a.d(x.header_len()); a.d(x.icmp_type()); a.d(x.type_u8()); a.d(x.code_u8()); a.d(x.checksum()); a.d(x.bytes5to8());
-            a.s(x.payload()); a.d(x.is_checksum_valid([1; 16], [2; 16])); a.d(x.payload_slice());
+            a.s(x.payload()); a.d(x.is_checksum_valid([1; 16], [2; 16])); a.r(x.payload_slice());
         }
         Err(e) => a.e(e),
     }
-    a.d(Icmpv6Header::from_slice(b).map(|(h, r)| (h, r.len())));
+    a.r(Icmpv6Header::from_slice(b).map(|(h, r)| (h, r.len())));
     // neighbour discovery option areas: behind the ICMPv6 header and behind each possible fixed part
     for off in [8usize, 16, 24, 40] {
         if b.len() >= off {
@@ -333,7 +340,7 @@ fn sw_transport(a: &mut Acc, b: &[u8]) {
                         a.s(o.as_bytes());
                         a.d(o);
                     }
-                    Some(Err(e)) => a.d(e),
+                    Some(Err(e)) => a.e(e),
                 }
                 budget -= 1;
                 if budget == 0 {
@@ -344,13 +351,13 @@ fn sw_transport(a: &mut Acc, b: &[u8]) {
             a.d(it.next());
         }
     }
-    a.d(IgmpHeader::from_slice(b).map(|(h, r)| (h, r.len())));
+    a.r(IgmpHeader::from_slice(b).map(|(h, r)| (h, r.len())));
 }
 
 /// returns (digest, number of accessor results)
 fn sw_ip_headers_slice(a: &mut Acc, h: &IpHeadersSlice) {
     a.d(h.is_ipv4()); a.d(h.is_ipv6()); a.s(h.slice()); a.d(h.source_addr()); a.d(h.destination_addr()); a.d(h.next_header());
-    a.d(h.payload_ip_number()); a.d(h.version()); a.d(h.header_len()); a.d(h.try_to_header());
+    a.d(h.payload_ip_number()); a.d(h.version()); a.d(h.header_len()); a.r(h.try_to_header());
     if let Some(x) = h.ipv4() { a.s(x.slice()); }
     if let Some(x) = h.ipv4_exts() { a.d(x.to_header()); a.d(x.is_empty()); }
     if let Some(x) = h.ipv6() { a.s(x.slice()); }
